@@ -148,7 +148,8 @@ def run_tlc(module, cfg_kwargs, *, workers=16, simulate=None, depth=None, seed=N
                 f.write(content)
         cfg = os.path.join(work, module + ".cfg")
         write_cfg(cfg, **cfg_kwargs)
-        cmd = ["java", "-XX:+UseParallelGC", "-Xmx" + heap]
+        # several TLC processes run side by side: keep each JVM's GC threads in proportion to its workers
+        cmd = ["java", "-XX:+UseParallelGC", "-XX:ParallelGCThreads=%d" % max(1, min(int(workers), 4)), "-Xmx" + heap]
         if dfs:
             cmd.append("-Dtlc2.tool.queue.IStateQueue=StateDeque")
         cmd += ["-cp", JAVA_CP, "tlc2.TLC", "-workers", str(workers), "-metadir", os.path.join(work, "meta"),
